@@ -44,7 +44,9 @@ RESP_CL = b"HTTP/1.1 200 OK\r\nContent-Type: text/plain\r\nContent-Length: 11\r\
 RESP_CH = b"HTTP/1.1 200 OK\r\nContent-Type: text/plain\r\nTransfer-Encoding: chunked\r\n\r\n5\r\nhello\r\n6\r\n world\r\n0\r\n\r\n"
 RESP_INTERIM = b"HTTP/1.1 102 Processing\r\nX-Progress: 1\r\n\r\nHTTP/1.1 103 Early Hints\r\nLink: </s.css>\r\n\r\n" + RESP_CL
 BODY = b"hello world"
-SHAPES = {"cl": RESP_CL, "chunked": RESP_CH, "interim": RESP_INTERIM}
+BIG_N = 1_500_000
+RESP_BIG = b"HTTP/1.1 200 OK\r\nContent-Type: application/octet-stream\r\nContent-Length: %d\r\n\r\n" % BIG_N + b"z" * BIG_N
+SHAPES = {"cl": RESP_CL, "chunked": RESP_CH, "interim": RESP_INTERIM, "big": RESP_BIG}
 
 
 def ceil_bound(x: float) -> float:
@@ -172,7 +174,7 @@ class World:
         case = self.case
         target = head.split(" ")[1]
         self.served.append((peer.idx, target))
-        resp = SHAPES[case.get("shape") or "cl"]
+        resp = SHAPES[case.get("shape") or "cl"] if (target == "/main" or case.get("shape") != "big") else RESP_CL
         if target.startswith("/hold"):
             # headers now, body when released
             peer.send(b"HTTP/1.1 200 OK\r\nContent-Length: 4\r\n\r\n")
@@ -255,8 +257,12 @@ def run_case(case: dict) -> dict:
                 if data is not None:
                     kw["data"] = data
                 async with session.request("POST" if data is not None else "GET", "http://origin.test" + path, **kw) as resp:
+                    if tag == "main" and case.get("consumer_wait"):
+                        # a slow consumer: the unread body piles up past the high-water mark and reading is paused
+                        await asyncio.sleep(case["consumer_wait"])
+                        res["resumed_at"] = loop.time() - t0
                     body = await resp.read()
-                    res[tag] = ("ok", resp.status, body, loop.time() - t0)
+                    res[tag] = ("ok", resp.status, body if len(body) < 100 else (len(body), body[:8]), loop.time() - t0)
             except asyncio.CancelledError:
                 res[tag] = ("cancelled", None, None, loop.time() - t0)
                 raise
@@ -282,9 +288,13 @@ def run_case(case: dict) -> dict:
 
         data = BIG if case.get("big_body") or case.get("stall") == "write" else None
         t_start = loop.time()
-        main = spawn(request("main", "/main", timeouts_for(case), data), "main")
         bystander = None
-        if case.get("bystander"):
+        if case.get("bystander") and case.get("by_first"):
+            # the bystander owns the pool queue head / the DNS lookup; the faulted request is the one that joins
+            bystander = spawn(request("by", "/by", None, None), "bystander")
+            loop.step()
+        main = spawn(request("main", "/main", timeouts_for(case), data), "main")
+        if case.get("bystander") and not case.get("by_first"):
             loop.step()
             bystander = spawn(request("by", "/by", None, None), "bystander")
 
@@ -312,8 +322,20 @@ def run_case(case: dict) -> dict:
                     break
                 loop.step()
             out["done_before_cancel"] = main.done()
+
+            def release_gates() -> None:
+                w.stall_active = False
+                for g in (w.dns_gate, w.sock_gate):
+                    if g is not None and not g.done():
+                        g.set_result(None)
+
+            rel = case.get("release")  # the stalled step completes in the same loop iteration as the cancellation
+            if rel == "answer-then-cancel":
+                release_gates()
             if not main.done():
                 main.cancel()
+            if rel == "cancel-then-answer":
+                release_gates()
             loop.run_until_idle()
             out["main_done"] = main.done()
         out["t_fail"] = res.get("main", (None, None, None, None))[3]
@@ -407,6 +429,8 @@ def check_case(rec: Rec, case: dict) -> None:
                 if not isinstance(m[1], asyncio.TimeoutError):
                     raise Violation(f"wrong-error/{stall}", f"expected a timeout error, got {type(m[1]).__name__}: {m[1]}; {desc}")
                 lp = out.get("last_planned", 0.0) if set(tos) == {"sock_read"} else 0.0  # sock_read counts from the last byte received
+                if case.get("consumer_wait") and set(tos) == {"sock_read"}:
+                    lp = case["consumer_wait"]  # ... or from the moment a paused reader resumes
                 if m[3] > lp + bound + 1e-6:
                     raise Violation(f"timeout-late/{stall}", f"timed out after {m[3]:.3f}s, bound {bound}s after the last progress at {lp}s ({tos}); {desc}")
                 if m[3] < lp + min(tos.values()) - 1e-6:
@@ -496,6 +520,11 @@ def stall_cases(tier: str) -> list[dict]:
                 out.append({"mode": "timeout", "stall": "response", "shape": shape, "cut": cut, "segs": [5, 12, cut], "seg_delay": 0.8 * v, "timeouts": {"sock_read": v}})
     for kind, v in (("total", 0.5), ("sock_read", 0.5), ("total", 7.3)):
         out.append({"mode": "timeout", "stall": "write", "early": True, "timeouts": {kind: v}})
+    # slow consumer: reading paused by back-pressure, the peer stalls meanwhile, the consumer drains and waits
+    for v in (0.5, 7.3):
+        for cut in (700_000, 1_200_000):
+            for wait in (1.0, 3.0):
+                out.append({"mode": "timeout", "stall": "response", "shape": "big", "cut": cut, "consumer_wait": wait, "timeouts": {"sock_read": v}})
     return out
 
 
@@ -530,6 +559,12 @@ def cancel_shapes() -> list[dict]:
         {"mode": "cancel", "shape": "cl", "stall": "write"},
         {"mode": "cancel", "shape": "interim"},
         {"mode": "cancel", "shape": "cl", "stall": "write", "early": True},
+        {"mode": "cancel", "shape": "cl", "stall": "dns", "bystander": True, "by_first": True},
+        {"mode": "cancel", "shape": "cl", "stall": "dns", "bystander": True, "by_first": True, "release": "answer-then-cancel"},
+        {"mode": "cancel", "shape": "cl", "stall": "dns", "bystander": True, "by_first": True, "release": "cancel-then-answer"},
+        {"mode": "cancel", "shape": "cl", "stall": "dns", "bystander": True, "release": "answer-then-cancel"},
+        {"mode": "cancel", "shape": "cl", "stall": "sock_connect", "bystander": True, "release": "answer-then-cancel"},
+        {"mode": "cancel", "shape": "cl", "holder": True, "bystander": True, "by_first": True},
     ]
 
 
@@ -580,6 +615,10 @@ def sampled_cases(draw):
         case["timeouts"] = {k: draw(st.sampled_from(VALUES + [1.0, 12.0])) for k in kinds}
     else:
         case["k"] = draw(st.integers(0, 60))
+        if stall in ("dns", "sock_connect"):
+            case["release"] = draw(st.sampled_from([None, "answer-then-cancel", "cancel-then-answer"]))
+    if case.get("bystander") and stall in ("dns", "pool"):
+        case["by_first"] = draw(st.booleans())  # only a shared lookup / queue makes the order matter
     return case
 
 
